@@ -35,6 +35,7 @@ impl Judge {
             Diff::Pc { .. } => self.pc,
             Diff::Mem { .. } => self.mem,
             Diff::Cost { .. } => self.cost,
+            Diff::Queue { .. } => self.pc,
         }
     }
 }
@@ -48,6 +49,7 @@ pub fn describe(d: &Diff) -> String {
         Diff::Pc { real, model } => format!("PC = {:06x}, reference {:06x}", real, model),
         Diff::Mem { addr, real, model } => format!("mem[{:06x}] = {:02x}, reference {:02x}", addr, real, model),
         Diff::Cost { real, model } => format!("states = {}, reference {}", real, model),
+        Diff::Queue { real, want } => format!("pending interrupt requests after the step {:?}, before it {:?} (an instruction must not touch them)", real, want),
     }
 }
 
